@@ -27,10 +27,66 @@ def rename(e, m):
     return _Rename(m).visit(copy.deepcopy(e))
 
 
+MODEL = [None]          # the source model of the run (set by enumeration(); used to resolve generator helpers)
+
+
+def _generator_helper(fn, call, use, pm):
+    """`self.h(args)` where h is a method of the same class that only enumerates: `for v in BASE: [if F:] yield v` (after simple
+    temporaries) or `return (v for v in BASE if F)`.  Returns (BASE, [F..], v) with the helper's temporaries expanded and its
+    parameters replaced by the call's arguments; None otherwise."""
+    model = MODEL[0]
+    if model is None or not (isinstance(call, ast.Call) and isinstance(call.func, ast.Attribute) and isinstance(call.func.value, ast.Name)
+                             and call.func.value.id == 'self' and fn.cls):
+        return None
+    h = model.funcs.get(f'{fn.module}::{fn.cls}.{call.func.attr}')
+    if h is None or call.keywords or any(isinstance(a, ast.Starred) for a in call.args):
+        return None
+    params = [p for p in h.params if p not in ('self', 'cls')]
+    if len(params) != len(call.args):
+        return None
+    hp = parents(h.node)
+    body = [s_ for s_ in h.node.body if not (isinstance(s_, ast.Expr) and isinstance(s_.value, ast.Constant))]
+    if not body or not all(isinstance(s_, ast.Assign) and len(s_.targets) == 1 and isinstance(s_.targets[0], ast.Name) for s_ in body[:-1]):
+        return None
+    last = body[-1]
+    base = var = None
+    filters = []
+    if isinstance(last, ast.For) and isinstance(last.target, ast.Name) and not last.orelse and len(last.body) == 1:
+        b = last.body[0]
+        while isinstance(b, ast.If) and not b.orelse and len(b.body) == 1:
+            filters.append((b.test, b))
+            b = b.body[0]
+        if isinstance(b, ast.Expr) and isinstance(b.value, ast.Yield) and isinstance(b.value.value, ast.Name) and b.value.value.id == last.target.id:
+            base, var, at = last.iter, last.target.id, last
+    elif isinstance(last, ast.Return) and isinstance(last.value, (ast.GeneratorExp, ast.ListComp)) and len(last.value.generators) == 1:
+        g = last.value.generators[0]
+        if isinstance(g.target, ast.Name) and isinstance(last.value.elt, ast.Name) and last.value.elt.id == g.target.id:
+            base, var, at = g.iter, g.target.id, last
+            filters = [(c, last) for c in g.ifs]
+    if base is None:
+        return None
+    sub = {p: a for p, a in zip(params, call.args)}
+
+    class S(ast.NodeTransformer):
+        def visit_Name(self, n):
+            return copy.deepcopy(sub[n.id]) if n.id in sub and isinstance(n.ctx, ast.Load) else n
+    # the helper's temporaries are expanded where they are used; its parameters stand for the caller's arguments
+    if any(p in {x.id for s_ in body for x in ast.walk(s_) if isinstance(x, ast.Name) and isinstance(x.ctx, ast.Store)} for p in params):
+        return None
+    base2 = S().visit(sem.expand(h, base, at, hp))
+    fl2 = [S().visit(sem.expand(h, t, at_, hp)) for t, at_ in filters]
+    return base2, fl2, var
+
+
 def _resolve_iter(fn, e, use, pm, var, depth=0):
     """(base iterable expr, [filter exprs over `var`]) of the iterable e of a loop `for var in e`."""
     if depth > 6:
         return e, []
+    gh = _generator_helper(fn, e, use, pm)
+    if gh is not None:
+        base, fl, v = gh
+        b2, f2 = _resolve_iter(fn, base, use, pm, var, depth + 1)
+        return b2, f2 + [rename(c, {v: var}) for c in fl]
     if isinstance(e, ast.Call) and isinstance(e.func, ast.Name) and e.func.id in ('list', 'tuple', 'sorted', 'iter') and len(e.args) == 1 and not e.keywords:
         return _resolve_iter(fn, e.args[0], use, pm, var, depth + 1)
     if isinstance(e, ast.Name):
@@ -60,8 +116,10 @@ class Enum:
         return f'{self.base_txt} | {sorted(self.filters)}'
 
 
-def enumeration(fn, anchor, renames=None):
+def enumeration(fn, anchor, renames=None, model=None):
     """The subset enumeration governing `anchor` (see module doc); None if the anchor is not inside any iteration."""
+    if model is not None:
+        MODEL[0] = model
     pm = parents(fn.node)
     binders, guards = routes._context(fn, anchor, pm)
     its = [b for b in binders if b.kind in ('iter', 'enum')]
